@@ -2,6 +2,7 @@ import GrmVerif.Drive.C19
 import GrmVerif.Drive.C17
 import GrmVerif.Drive.Table
 import GrmVerif.Drive.C01
+import GrmVerif.Drive.C08
 import GrmVerif.Drive.C09
 import GrmVerif.Drive.C11
 import GrmVerif.Drive.C12
@@ -21,6 +22,7 @@ def dispatch (prop : String) (args : List Nat) : String :=
   | "C03" => C03.handle args
   | "C16" => C16.handle args
   | "C01" => C01.handle args
+  | "C08" => C08.handle args
   | "C04" => C01.handle args
   | "C09" => C09.handle args
   | "C11" => C11.handle args
